@@ -2,6 +2,8 @@
 
 package sarama
 
+import "time"
+
 // vProdScenario draws the configuration of the producer scenario. mode 0: many fault scripts
 // under the canonical schedule; mode 1: fewer faults, schedules within one delay.
 func vProdScenario(mode int) vProdCfg {
@@ -38,6 +40,8 @@ func vProdScenario(mode int) vProdCfg {
 	}
 	if mode == 0 {
 		c.chanBuf = vChoose("chanBuf", 2)
+		// a slow broker: the first request is answered only after everything was submitted
+		c.holdFirst = vChoose("slowFirstResponse", 2) == 1
 	}
 	vClass(vSprintf("retryMax=%d,topology=%d,idem=%v,flush=%d", c.retryMax, topo, c.idem, flush))
 	return c
@@ -55,5 +59,115 @@ func verifHarness_C01_sysFaults() {
 func verifHarness_C01_sysSchedules() {
 	r := vRunProducer(vProdScenario(1))
 	r.assertC01()
+	vReach()
+}
+
+// ---------- C01 P-step (L5): accounting of one produce response, for EVERY error code ----------
+//
+// A sent set of 1-2 partitions x 1-2 messages and 0-1 buffered message; the response carries,
+// per partition, a missing block or a block whose error code is a FREE int16. After the real
+// handleResponse every message is held by exactly one place: Successes, Errors, the retry
+// queue, a batch handed to retryBatch, or still buffered; inFlight equals what is not terminal.
+func verifHarness_C01_stepHandleResponse() {
+	vConfig("delay", 0)
+	conf := NewConfig()
+	conf.Producer.Return.Successes = true
+	conf.Producer.Return.Errors = true
+	conf.Producer.Retry.Max = vChoose("retryMax", 3)
+	idem := vChoose("idempotent", 2) == 1
+	if idem {
+		vAssume(conf.Producer.Retry.Max >= 1)
+		conf.Producer.Idempotent = true
+		conf.Version = V0_11_0_0
+	}
+	cl := vNewCluster(conf, 1, 2, 0)
+	client := &vFakeClient{conf: conf, cl: cl}
+	p := &asyncProducer{client: client, conf: conf,
+		errors: make(chan *ProducerError, 16), successes: make(chan *ProducerMessage, 16), retries: make(chan *ProducerMessage, 16),
+		input: make(chan *ProducerMessage, 16), brokers: map[*Broker]*brokerProducer{}, brokerRefs: map[*brokerProducer]int{},
+	}
+	txn, err := newTransactionManager(conf, client) // the real constructor (InitProducerID on the fake client)
+	vAssume(err == nil)
+	p.txnmgr = txn
+	out := make(chan *produceSet, 8)
+	bp := &brokerProducer{parent: p, broker: cl.brokers[0], input: make(chan *ProducerMessage, 8), output: out,
+		stopchan: make(chan struct{}), currentRetries: map[string]map[int32]error{}}
+	bp.buffer = newProduceSet(p)
+	if conf.Producer.Retry.Max <= 0 {
+		bp.abandoned = make(chan struct{})
+	}
+	p.brokers[cl.brokers[0]] = bp
+	p.brokerRefs[bp] = 1
+	vOverride("(*Broker).Close", func(b *Broker) error { return nil })
+	sent := newProduceSet(p)
+	var all []*ProducerMessage
+	nParts := 1 + vChoose("partitions", 2)
+	for part := 0; part < nParts; part++ {
+		nm := 1 + vChoose("messages", 2)
+		for i := 0; i < nm; i++ {
+			m := &ProducerMessage{Topic: "t", Partition: int32(part), Value: ByteEncoder{byte(len(all) + 1)}}
+			if idem {
+				m.sequenceNumber, m.producerEpoch, m.hasSequence = int32(i), 0, true
+			}
+			p.inFlight.Add(1)
+			vAssume(sent.add(m) == nil)
+			all = append(all, m)
+		}
+	}
+	if vChoose("buffered", 2) == 1 {
+		m := &ProducerMessage{Topic: "t", Partition: 0, Value: ByteEncoder{99}}
+		if idem {
+			m.sequenceNumber, m.hasSequence = 5, true
+		}
+		p.inFlight.Add(1)
+		vAssume(bp.buffer.add(m) == nil)
+		all = append(all, m)
+	}
+	resp := &ProduceResponse{Blocks: map[string]map[int32]*ProduceResponseBlock{"t": {}}}
+	for part := 0; part < nParts; part++ {
+		if vChoose("blockPresent", 2) == 1 {
+			resp.Blocks["t"][int32(part)] = &ProduceResponseBlock{Err: KError(vInt16("code")), Offset: vInt64("base")}
+		}
+	}
+	var res *brokerProducerResponse
+	if vChoose("transportError", 2) == 1 {
+		res = &brokerProducerResponse{set: sent, err: errVConn}
+	} else {
+		res = &brokerProducerResponse{set: sent, res: resp}
+	}
+	bp.handleResponse(res)
+	// let retryBatch goroutines (idempotent path) run to completion
+	<-time.After(time.Millisecond) // virtual time passes only once every goroutine is blocked or done
+	held := map[*ProducerMessage]int{}
+	terminal := 0
+	for len(p.successes) > 0 {
+		held[<-p.successes]++
+		terminal++
+	}
+	for len(p.errors) > 0 {
+		held[(<-p.errors).Msg]++
+		terminal++
+	}
+	for len(p.retries) > 0 {
+		held[<-p.retries]++
+	}
+	for len(out) > 0 {
+		set := <-out
+		set.eachPartition(func(topic string, partition int32, pSet *partitionSet) {
+			for _, m := range pSet.msgs {
+				held[m]++
+			}
+		})
+	}
+	bp.buffer.eachPartition(func(topic string, partition int32, pSet *partitionSet) {
+		for _, m := range pSet.msgs {
+			held[m]++
+		}
+	})
+	for _, m := range all {
+		vAssert(held[m] >= 1, "no-message-lost-by-the-response-handler")
+		vAssert(held[m] <= 1, "no-message-held-twice")
+	}
+	vAssert(vWGCount(&p.inFlight) == len(all)-terminal, "inflight-matches-non-terminal-messages")
 	vReach()
 }
